@@ -2,7 +2,7 @@
 # sweep.sh [tier] [seed...] : run every claimed check; summary lines only
 TIER=${1:-quick}; shift
 SEEDS=${@:-1}
-cd /verif
+cd ${VERIF_DIR:-/verif}
 for s in $SEEDS; do
   for id in $(python3 -c "import json;print(' '.join(c['property_id'] for c in json.load(open('MANIFEST.json'))['checks']))"); do
     start=$(date +%s)
